@@ -580,10 +580,9 @@ def precession_equatorial(
         start_ra.rad() + zeta.rad()
     ) + cos(theta.rad()) * sin(start_dec.rad())
     final_ra = atan2(a, b) + z.rad()
-    if start_dec > 85.0:  # Coordinates are close to the pole
-        final_dec = sqrt(a * a + b * b)
-    else:
-        final_dec = asin(c)
+    # cos(dec) = sqrt(a^2 + b^2) and sin(dec) = c: this form keeps its
+    # accuracy when coordinates are close to either pole
+    final_dec = atan2(c, sqrt(a * a + b * b))
     # Convert results to Angles. Please note results are in radians
     final_ra = Angle(final_ra, radians=True)
     final_dec = Angle(final_dec, radians=True)
@@ -815,10 +814,9 @@ def precession_newcomb(
         start_ra.rad() + zeta.rad()
     ) + cos(theta.rad()) * sin(start_dec.rad())
     final_ra = atan2(a, b) + z.rad()
-    if start_dec > 85.0:  # Coordinates are close to the pole
-        final_dec = sqrt(a * a + b * b)
-    else:
-        final_dec = asin(c)
+    # cos(dec) = sqrt(a^2 + b^2) and sin(dec) = c: this form keeps its
+    # accuracy when coordinates are close to either pole
+    final_dec = atan2(c, sqrt(a * a + b * b))
     # Convert results to Angles. Please note results are in radians
     final_ra = Angle(final_ra, radians=True)
     final_dec = Angle(final_dec, radians=True)
